@@ -1425,12 +1425,18 @@ def gen_C20(rng, tier, dist):
         bad = None
         if r < 0.35:
             bad = rng.choice(["odd", "nonhex", "empty", "binary", "missing", "nodims", "smalldims", "bigdims", "fps0", "novideo", "garbage_frame",
-                              "noaudio_params", "bad_audio", "fragmented", "dry", "dry_bad", "bigfps", "ws_only"])
+                              "noaudio_params", "bad_audio", "fragmented", "dry", "dry_bad", "bigfps", "ws_only", "plus", "plus", "minus", "prefix0x"])
             def setv(content):
                 nonlocal files
                 files = " ".join(["v=%s" % (content.hex() if content is not None and len(content) else ("~" if content is None else "-"))] + [f for f in files.split() if not f.startswith("v=")])
             if bad == "odd": setv(hexfile(key, rng, "plain")[:-1])
             elif bad == "nonhex": setv(b"zz" + hexfile(key, rng, "plain"))
+            elif bad == "plus":
+                # a sign where a digit belongs: an even number of characters, but not hexadecimal text
+                t = bytearray(hexfile(key, rng, "plain")); t[-2] = ord("+"); setv(bytes(t))
+            elif bad == "minus":
+                t = bytearray(hexfile(key, rng, "plain")); t[-2] = ord("-"); setv(bytes(t))
+            elif bad == "prefix0x": setv(b"0x" + hexfile(key, rng, "plain"))
             elif bad == "empty": setv(b"")
             elif bad == "ws_only": setv(b" \n\t ")
             elif bad == "binary": setv(bytes([0xFF, 0xFE, 0x00, 0x80]) + key)
